@@ -65,7 +65,7 @@ class Parse(Stream):
 
 def rand_voices(rng, nbars, lens):
     total = sum(lens)
-    grid = rng.choice([F(1, 2), F(1, 3), F(1, 4), F(1)])
+    grid = rng.choice([F(1, 2), F(1, 3), F(1, 4), F(1), F(1, 2), F(1, 3), F(1, 4), F(1), F(1, 5), F(1, 6), F(1, 12), F(1, 16), F(3, 16)])
     voices = []
     for v in range(rng.randrange(1, 4)):
         t = F(0)
@@ -118,6 +118,13 @@ class Import(Stream):
                 for n in notes:
                     items.append(Item("n", F(n["start"]), F(n["end"]), vel=n["vel"], pitch=60 + n["pitch"], track=0, channel=0, voice=v))
             items.sort(key=lambda x: x.start)
+            if case.get("via_table"):
+                # the entry point of the MIDI import: a table of notes (exact quarter-note positions) turned into items by convert_to_items
+                import pandas as pd
+                from musiclang.analyze.item import convert_to_items
+                rows = [{"onset_quarter": it.start, "duration_quarter": it.end - it.start, "velocity": it.vel, "pitch": it.pitch,
+                         "track": it.track, "channel": it.channel, "voice": it.voice} for it in items]
+                items = convert_to_items(pd.DataFrame(rows, dtype=object))
             chords = [mlang.mk_chord(c).set_duration(F(l)) for c, l in zip(case["chords"], case["lens"])]
             bars, t = [], F(0)
             for l in case["lens"]:
@@ -213,7 +220,7 @@ class ImportTracks(Stream):
             while not all(any(v) for v in tracks):
                 tracks = [rand_voices(rng, nb, lens) for _ in range(ntr)]
             instr = rng.choice([["piano"] * ntr, ["piano", "violin", "piano"][:ntr], ["flute", "flute", "cello"][:ntr]])
-            yield {"chords": chords, "lens": lens, "tracks": tracks, "instr": instr}
+            yield {"chords": chords, "lens": lens, "tracks": tracks, "instr": instr, "via_table": rng.random() < 0.5}
 
     def impl(self, case):
         from musiclang.analyze.to_musiclang import infer_score_with_chords_durations
@@ -225,6 +232,13 @@ class ImportTracks(Stream):
                     for n in notes:
                         items.append(Item("n", F(n["start"]), F(n["end"]), vel=n["vel"], pitch=60 + n["pitch"], track=ti, channel=ti, voice=v))
             items.sort(key=lambda x: x.start)
+            if case.get("via_table"):
+                # the entry point of the MIDI import: a table of notes (exact quarter-note positions) turned into items by convert_to_items
+                import pandas as pd
+                from musiclang.analyze.item import convert_to_items
+                rows = [{"onset_quarter": it.start, "duration_quarter": it.end - it.start, "velocity": it.vel, "pitch": it.pitch,
+                         "track": it.track, "channel": it.channel, "voice": it.voice} for it in items]
+                items = convert_to_items(pd.DataFrame(rows, dtype=object))
             chords = [mlang.mk_chord(c).set_duration(F(l)) for c, l in zip(case["chords"], case["lens"])]
             bars, t = [], F(0)
             for l in case["lens"]:
